@@ -102,8 +102,9 @@ Fixpoint sample_rounds (d : db) (desc : N) (sp : space) (sub : subspace) (now : 
 Definition get_id (d : db) (desc : N) (sp : space) (sub : subspace) (now : Z) (max_ids : Z)
            (samples : list N) (ch : choice) : get_result * db :=
   let rows := rows_in d sp sub in
-  match filter (fun r => idesc r =? desc) rows with
-  | _ :: _ as hits =>
+  let hits := filter (fun r => idesc r =? desc) rows in
+  match hits with
+  | _ :: _ =>
       (* UPDATE atime of the row fetchone() returned *)
       if has_id hits (hit_pick ch)
       then (GotId (hit_pick ch), upd_tbl d sp (map (fun x => if iid x =? hit_pick ch then {| iid := iid x; idesc := idesc x; iatime := now |} else x) (d sp)))
